@@ -342,6 +342,16 @@ func (x *Exec) registerLib() {
 		return &Struct{}, true
 	}, mods: func(c *ssa.CallCommon) []string { return []string{"[]string"} }}
 	x.registerReflectLib()
+	// error reporting of the interpreter: these functions panic with a compile error
+	noret := &libFn{apply: func(f *Frame, st *State, ins ssa.Instruction, args []Value) (Value, bool) {
+		x.note("library spec: output.Errorf / Stringer.Errorf never return (they panic with the compile error)")
+		if f != nil && f.panicHook != nil {
+			f.panicHook(st.clone(), "compile error", ins)
+		}
+		return nil, false
+	}, mods: noMods}
+	x.lib["(*github.com/cosmos72/gomacro/base/output.Stringer).Errorf"] = noret
+	x.lib["github.com/cosmos72/gomacro/base/output.Errorf"] = noret
 }
 
 // sortStringsSpec: the elements of s are replaced by a sorted permutation.
